@@ -96,6 +96,15 @@ def generate(tape, tier="quick"):
                 o["okind"] = "callback"
                 o["info"] = "known"
                 o.pop("rule_units", None)
+    # fan-out at an adapter: links of the same output share one Scale instance
+    by_src = {}
+    for k, ln in enumerate(links):
+        by_src.setdefault(tuple(ln["src"]), []).append(k)
+    for ks in by_src.values():
+        if len(ks) >= 2 and tape.chance(1, 2):
+            for k in ks:
+                links[k]["scale"] = 2
+                links[k]["scale_group"] = ks[0]
     for ln in links:
         if comps[ln["src"][0]]["outputs"][ln["src"][1]].get("okind") in ("static", "callback"):
             ln.pop("chain", None)        # time adapters need timed publications / notifications
